@@ -36,6 +36,7 @@ type World struct {
 	srcHash   string
 	customSorts map[string]string
 	specPkg   map[string]*types.Package
+	compRefLike map[string]bool // field components holding references (pointers, maps, channels)
 	functypes map[string]*FuncContract // "pkg.Name" or type string
 	sites     map[string]*ContractFile
 }
@@ -63,7 +64,7 @@ func loadWorld(repo string, patterns []string, trustedDir string) (*World, error
 	w := &World{repo: repo, pkgs: map[string]*ssa.Package{}, tpkgs: map[string]*types.Package{},
 		contracts: map[string]*FuncContract{}, cfiles: map[string]*ContractFile{}, specs: map[string]*SpecFunc{},
 		lemmas: map[string]*Lemma{}, ghosts: map[string]GhostVar{}, guarded: map[string]string{}, immutable: map[string]bool{},
-		compRange: map[string][2]*big.Int{}, customSorts: map[string]string{}, specPkg: map[string]*types.Package{}, functypes: map[string]*FuncContract{}}
+		compRange: map[string][2]*big.Int{}, customSorts: map[string]string{}, specPkg: map[string]*types.Package{}, functypes: map[string]*FuncContract{}, compRefLike: map[string]bool{}}
 	cfg := &packages.Config{
 		Mode:       packages.LoadAllSyntax,
 		Dir:        repo,
